@@ -221,7 +221,7 @@ impl Property for C14 {
     }
     fn cases(&self, tier: Tier) -> u32 {
         if tier.thorough() {
-            200_000
+            1_000_000
         } else {
             60_000
         }
